@@ -236,6 +236,12 @@ def consistent(conds):
             return False
         if len(d) == 3 and not any(d.values()):
             return False
+    # a == b between two conditions whose own truth is known on this path
+    for a, t in seen.items():
+        if a[0] == "==":
+            ta, tb = seen.get(Atom(("t", a[1]))), seen.get(Atom(("t", a[2])))
+            if ta is not None and tb is not None and (ta == tb) != t:
+                return False
     # K1 + X == 0 and K2 + X == 0 cannot both hold
     eqs = {}
     for a, t in seen.items():
